@@ -5,6 +5,8 @@ evidence files are restored."""
 import json, os, subprocess, sys, shutil, time, glob
 R = "/verif/seeded/results"
 S = "/verif/seeded"
+REPO = os.environ.get("EVAL_REPO", "/repo")
+VERIF = os.environ.get("EVAL_VERIF", "/verif")
 os.makedirs(R, exist_ok=True)
 targets = sys.argv[1:] or sorted(p[len(S) + 1:] for p in glob.glob(S + "/C??/[0-9]"))
 OVERRIDE = {"C04/1": ["C09"], "C11/3": ["C11", "C01"]}
@@ -17,27 +19,27 @@ for t in targets:
     if not os.path.exists(m + "/patch.diff"):
         continue
     out = {"mutant": t, "checks": {}}
-    if sh("git -C /repo status --porcelain").stdout.strip():
+    if sh(f"git -C {REPO} status --porcelain").stdout.strip():
         print("repo dirty; abort"); sys.exit(2)
-    a = sh(f"git -C /repo apply {m}/patch.diff")
+    a = sh(f"git -C {REPO} apply {m}/patch.diff")
     if a.returncode != 0:
-        a = sh(f"git -C /repo apply --3way {m}/patch.diff")
-        sh("git -C /repo reset -q")
+        a = sh(f"git -C {REPO} apply --3way {m}/patch.diff")
+        sh(f"git -C {REPO} reset -q")
     out["applies"] = a.returncode == 0
     if a.returncode != 0:
         out["apply_msg"] = a.stdout[-400:]
-        sh("git -C /repo checkout -- . ; git -C /repo clean -fdq -e target")
+        sh(f"git -C {REPO} checkout -- . ; git -C {REPO} clean -fdq -e target")
     else:
         props = OVERRIDE.get(t) or ([pid] + [p for p in EXTRA.get(t, []) if p != pid])
         for p in props:
-            ev = f"/verif/evidence/{p}.json"
-            bak = f"/tmp/evidence_{p}.bak"
+            ev = f"{VERIF}/evidence/{p}.json"
+            bak = f"/tmp/evidence_{p}_{os.getpid()}.bak"
             if os.path.exists(ev): shutil.copy(ev, bak)
             t0 = time.time()
-            r = sh(f"cd /verif && ./check {p} --tier quick", timeout=3000)
+            r = sh(f"cd {VERIF} && ./check {p} --tier quick", timeout=3000)
             viol = [l for l in r.stdout.splitlines() if l.startswith("VIOLATION") or "violated:" in l]
             out["checks"][p] = {"exit": r.returncode, "violations": viol[:8], "n_violation_lines": len([l for l in viol if l.startswith("VIOLATION")]), "wall_s": round(time.time() - t0), "tail": r.stdout[-600:] if r.returncode not in (0, 1) else ""}
             if os.path.exists(bak): shutil.copy(bak, ev)
-        sh("git -C /repo checkout -- . ; git -C /repo clean -fdq -e target")
+        sh(f"git -C {REPO} checkout -- . ; git -C {REPO} clean -fdq -e target")
     json.dump(out, open(f"{R}/{pid}_{k}.json", "w"), indent=1)
     print(t, "applies" if out["applies"] else "NOAPPLY", {p: (c["exit"], c["n_violation_lines"]) for p, c in out["checks"].items()}, flush=True)
